@@ -290,6 +290,9 @@ fn c18_case(p: &conc::TermProgram, journal: Option<&str>) -> CaseReport {
     if p.fail_from > 0 {
         *counters.entry("failing_device".into()).or_insert(0) += 1;
     }
+    if p.pinned_readers > 0 {
+        *counters.entry("programs_with_readers_pinned_to_one_cpu".into()).or_insert(0) += 1;
+    }
     let nontrivial = (out.threads_inside >= 3 || out.out_of_space > 0 || out.faults_injected > 0).then(|| env::fnv(format!("{p:?}").as_bytes()));
     let sample = nontrivial.map(|_| json!({"program": serde_json::to_value(p).unwrap(), "calls": out.calls, "max_threads_inside_the_store": out.threads_inside, "flush_out_of_space": out.out_of_space, "faults_injected": out.faults_injected}));
     let failure = out.panicked.then(|| ("thread-panicked".to_string(), "a thread panicked inside the store during a contention program".to_string(), json!({"program": serde_json::to_value(p).unwrap()})));
